@@ -165,6 +165,10 @@ namespace {
       util::word_view word(std::mt19937_64& g)
       {
          std::u8string w;
+         // one word in five is a RESERVED spelling (the process-wide constants of the string pool), the longest ones included
+         static const char8_t* const reserved[] = { u8"unsigned long long", u8"unsigned short", u8"thread_local", u8"constexpr", u8"int", u8"char8_t",
+            u8"C++", u8"C", u8"=0", u8"...", u8"this", u8"nullptr", u8"default", u8"decltype(auto)", u8"wchar_t", u8"long double" };
+         if (g() % 5 == 0) { w = reserved[g() % (sizeof reserved / sizeof reserved[0])]; words.push_back(w); return words.back(); }
          const int n = 1 + static_cast<int>(g() % 12);
          for (int i = 0; i < n; ++i) w += static_cast<char8_t>(g() & 0xff);
          words.push_back(w);
@@ -354,6 +358,10 @@ namespace {
          args.push_back(c.ob.show(v));
          sorts.push_back(sort);
          return slot(v, other);
+      }
+      ipr::Specifiers& SPECS()
+      {
+         return value<ipr::Specifiers>("Specifiers", {Specifiers{0x42}, Specifiers{0x4}, Specifiers{0}, Specifiers{0xA}, Specifiers{0x200}, Specifiers{0x30}, Specifiers{0x204}});
       }
       ipr::Qualifiers& Q() { return value<ipr::Qualifiers>("Qualifiers", {Qualifiers{1}, Qualifiers{2}, Qualifiers{3}, Qualifiers{4}, Qualifiers{5}, Qualifiers{6}, Qualifiers{7}}); }
       ipr::Delimiter& DELIM() { return value<ipr::Delimiter>("Delimiter", {Delimiter::Nothing, Delimiter::Paren, Delimiter::Brace, Delimiter::Bracket, Delimiter::Angle}); }
@@ -584,6 +592,9 @@ void Ctx::build_pools()
    auto fresh_type = [&]() -> const ipr::Type& { return *tu.at(next_tu++); };
    // strings, identifiers, names
    for (int i = 0; i < 8; ++i) pool("String", strings, L.get_string(word(g)));
+   // ... and Strings spelling reserved words (the shortest and the longest of them): the name factories that take a String answer a
+   // name whose string() / what() is the String given, reserved or not
+   for (auto w : { u8"unsigned long long", u8"C", u8"decltype(auto)", u8"thread_local" }) pool("String", strings, L.get_string(w));
    for (int i = 0; i < 8; ++i) pool("Identifier", idents, L.get_identifier(word(g)));
    for (int i = 0; i < 3; ++i) pool("Name", names, static_cast<const ipr::Name&>(L.get_identifier(word(g))));
    for (int i = 0; i < 2; ++i) pool("Name", names, static_cast<const ipr::Name&>(L.get_operator(word(g))));
@@ -1086,6 +1097,14 @@ static void register_container_entries()
    SCOPE_DECL(make_alias, "Expr", E) SCOPE_DECL(make_var, "Type", T) SCOPE_DECL(make_field, "Type", T) SCOPE_DECL(make_bitfield, "Type", T)
    SCOPE_DECL(make_typedecl, "Type", T) SCOPE_DECL(make_fundecl, "Function", FN) SCOPE_DECL(make_primary_template, "Forall", FA)
    SCOPE_DECL(make_secondary_template, "Forall", FA)
+   // declaration specifiers set twice (the second set is not a superset of the first, and may be empty): the declaration reports the
+   // specifiers it was given LAST
+#define SCOPE_SPEC(FN, SORT2, PICK2) \
+   ENTRY("Scope::" #FN "(Name," SORT2 ")#specifiers-set-twice", auto& sc = r.fresh(r.c.unit.global_region()->make_subregion()->scope, "Scope"); auto& n = r.N(); auto& t = r.PICK2(); \
+         ipr::Specifiers a = r.SPECS(); ipr::Specifiers b = r.SPECS(); auto* d = sc.FN(n, t); d->specifiers(a); d->specifiers(b); r.done(*d);)
+   SCOPE_SPEC(make_alias, "Expr", E) SCOPE_SPEC(make_var, "Type", T) SCOPE_SPEC(make_field, "Type", T) SCOPE_SPEC(make_bitfield, "Type", T)
+   SCOPE_SPEC(make_typedecl, "Type", T) SCOPE_SPEC(make_fundecl, "Function", FN) SCOPE_SPEC(make_primary_template, "Forall", FA)
+   SCOPE_SPEC(make_secondary_template, "Forall", FA)
 #define SCOPE_REDECL(FN, SORT2, PICK2, KIND) \
    ENTRY("Scope::" #FN "(Name," SORT2 ")#redeclaration", auto& sc = r.fresh(r.c.unit.global_region()->make_subregion()->scope, "Scope"); auto& n = r.N(); auto& t = r.PICK2(); \
          auto& first = r.fresh(*sc.FN(n, t), KIND); (void) first; r.done(*sc.FN(n, t));)
